@@ -253,3 +253,15 @@ func vstubCreate(name string) error { return vstubOpen(name) }
 func vdeepequal(a, b interface{}) bool { return reflect.DeepEqual(a, b) }
 
 func vprint(name string, v interface{}) { fmt.Printf("VPRINT %s = %v\n", name, v) }
+
+// translator-validation primitives
+func vpin(s string) string     { return s }
+func vpinInt(x int64) int64    { return x }
+func vobserve(label, v string) { fmt.Printf("VOBSERVE %s=%s\n", label, v) }
+func vreadfile(path string) string {
+	b, err := os.ReadFile(path)
+	if err != nil {
+		panic(err)
+	}
+	return string(b)
+}
